@@ -3,6 +3,8 @@
 from ..r_valence import (rule_tables_compile, rule_definite_assignment, rule_sibling_agreement, rule_aromatic_carbon, rule_totals)
 
 from ..r_domains import rule_domains
+from ..r_construct import rule_changed_set
+from ..r_protocol import run_protocol
 
 LEVEL = 'other'
 
@@ -15,3 +17,6 @@ def run(ck, repo):
     rule_domains(ck, repo, 'C04.D3-environment-domains', only=['_compiled_valence_rules', '_compiled_saturation_rules', 'calc_implicit', 'check_implicit', 'implicify_hydrogens'])
     rule_aromatic_carbon(ck, repo, 'C04.D3-aromatic-carbon')
     rule_totals(ck, repo, 'C04.D4-totals')
+    # every atom whose environment an edit changed is recalculated: pending-set bookkeeping + the HYDRO dimension of the mutator protocol
+    rule_changed_set(ck, repo)
+    run_protocol(ck, repo, 'C04.D5-recalculation', only_dims={'HYDRO'})
